@@ -231,6 +231,8 @@ inline tainted_opaque<int, S>& cb_opaquerefret(rlbox_sandbox<S>&, tainted<int, S
 inline const tainted<int, S>& cb_constrefret(rlbox_sandbox<S>&, tainted<int, S>) { static tainted<int, S> t = 1; return t; }
 inline tainted<int, S> cb_sbxbyvalue(rlbox_sandbox<S>*, tainted<int, S> x) { return x; }
 inline tainted<int, S> cb_volatileparam(rlbox_sandbox<S>&, tainted_volatile<int, S>& x) { return x; }
+inline tainted_opaque<int*, NS> cb_foreign_opaque_ret(rlbox_sandbox<S>&, tainted<int, S>) { tainted<int*, NS> t = nullptr; return t.to_opaque(); }
+inline tainted<int, S> cb_foreign_opaque_param(rlbox_sandbox<S>&, tainted_opaque<int*, NS>) { return 1; }
 inline tainted<long, S> cb_good2(rlbox_sandbox<S>&, tainted<long, S> x) { return x; }
 inline tainted_opaque<int, S> cb_good_opaque(rlbox_sandbox<S>&, tainted_opaque<int, S> x) { return x; }
 inline tainted<long, S> cb_long(rlbox_sandbox<S>&, tainted<long, S> x) { return x; }
@@ -246,55 +248,15 @@ inline void sink_cb(Env& e, C& c)
 }
 
 inline int32_t g_echo_int_fwd(int32_t x) { return x; }
-// C02 run-time entry points: abort <=> address outside this sandbox's memory
-inline void c02_entry_points(Env& e, mon::Rng& rng)
+inline uint64_t g_ep_acc = 0, g_ep_rej = 0;
+// the addresses the entry points are swept over
+template<typename F>
+inline void c02_entry_point_addresses(Env& e, mon::Rng& rng, uintptr_t obase, F&& one)
 {
-  Wd::sbx other;
-  other.create_sandbox(&e.lib);
-  uintptr_t base = Wd::base(e.sb), obase = Wd::base(other);
+  uintptr_t base = Wd::base(e.sb);
   size_t size = Wd::size(e.sb);
-  uint64_t n_acc = 0, n_rej = 0;
-  auto one = [&](uintptr_t a, const char* where) {
-    bool inside = a >= base && a - base < size;
-    char* p = reinterpret_cast<char*>(a);
-    mon::ctx("entry-points/%s | %p", where, (void*)a);
-    tainted<char*, S> t = nullptr;
-    bool ab1 = mon::aborts([&] { t.assign_raw_pointer(e.sb, p); });
-    tainted<char*, S> t2 = nullptr;
-    bool ab2 = mon::aborts([&] { t2 = e.sb.UNSAFE_accept_pointer(p); });
-    Wd::wr<uint32_t>(e.sb, e.off<cpchar>(), 0x5a5a5a5a);
-    bool ab3 = mon::aborts([&] { Wd::tptr<char*>(e.sb, e.off<cpchar>())->assign_raw_pointer(e.sb, p); });
-    uint32_t cell = Wd::rd<uint32_t>(e.sb, e.off<cpchar>());
-    // the same entry points with a function-pointer typed argument
-    fnp fp = reinterpret_cast<fnp>(a);
-    tainted<fnp, S> tf = nullptr;
-    bool ab4 = mon::aborts([&] { tf.assign_raw_pointer(e.sb, fp); });
-    bool ab5 = mon::aborts([&] { auto r = e.sb.UNSAFE_accept_pointer(fp); (void)r; });
-    bool ab6 = mon::aborts([&] { Wd::tptr<fnp>(e.sb, e.off<fnp>())->assign_raw_pointer(e.sb, fp); });
-    mon::evals(6);
-    const char* names[6] = { "tainted::assign_raw_pointer", "UNSAFE_accept_pointer", "tainted_volatile::assign_raw_pointer", "tainted::assign_raw_pointer(function-pointer)",
-                             "UNSAFE_accept_pointer(function-pointer)", "tainted_volatile::assign_raw_pointer(function-pointer)" };
-    bool abs[6] = { ab1, ab2, ab3, ab4, ab5, ab6 };
-    for (int k = 0; k < 6; k++) {
-      cur_desc = names[k];
-      if (inside && abs[k]) violation("entry-point-rejected-address-inside-sandbox", mon::fmt("%s(%s, base%+lld)", names[k], where, (long long)(a - base)));
-      else if (!inside && !abs[k]) violation("entry-point-accepted-address-outside-sandbox", mon::fmt("%s accepted %p (%s), sandbox memory is %p..%p", names[k], (void*)a, where, (void*)base, (void*)(base + size - 1)));
-      else (inside ? n_acc : n_rej)++;
-    }
-    // a rejected call must not have stored the application address either (observable once aborts are exceptions)
-    auto outside_nonnull = [&](uintptr_t v) { return v != 0 && !(v >= base && v - base < size); };
-    if (!inside && ab1 && outside_nonnull(reinterpret_cast<uintptr_t>(t.UNSAFE_unverified()))) { cur_desc = names[0]; violation("rejected-call-left-address-outside-sandbox-in-the-wrapper", mon::fmt("%s: tainted holds %p after the call aborted", where, (void*)t.UNSAFE_unverified())); }
-    if (!inside && ab4 && outside_nonnull(reinterpret_cast<uintptr_t>(tf.UNSAFE_unverified()))) { cur_desc = names[3]; violation("rejected-call-left-address-outside-sandbox-in-the-wrapper", mon::fmt("%s: tainted function pointer holds %p after the call aborted", where, (void*)tf.UNSAFE_unverified())); }
-    if (!inside && ab2 && outside_nonnull(reinterpret_cast<uintptr_t>(t2.UNSAFE_unverified()))) { cur_desc = names[1]; violation("rejected-call-left-address-outside-sandbox-in-the-wrapper", where); }
-    if (inside && !ab1 && reinterpret_cast<uintptr_t>(t.UNSAFE_unverified()) != a) { cur_desc = names[0]; violation("entry-point-stored-other-address", where); }
-    if (inside && !ab2 && reinterpret_cast<uintptr_t>(t2.UNSAFE_unverified()) != a) { cur_desc = names[1]; violation("entry-point-stored-other-address", where); }
-    if (inside && !ab3 && cell != static_cast<uint32_t>(a - base)) { cur_desc = names[2]; violation("entry-point-stored-other-representation", mon::fmt("%s: cell holds %u for base+%llu", where, cell, (unsigned long long)(a - base))); }
-  };
-  cur_id = 0; cur_tag = "r";
-  // every address around and inside this sandbox's region
   uintptr_t step = mon::thorough() ? 1 : 7;
   for (uintptr_t a = base - 4096; a < base + size + 4096; a += (a >= base + 64 && a + 64 < base + size) ? step : 1) one(a, "region-window");
-  mon::distinct_counted((size + 8192) / step);
   for (uintptr_t a = obase - 64; a < obase + 256; a++) one(a, "other-live-sandbox");
   one(obase + size - 1, "other-live-sandbox");
   one(0, "null");
@@ -307,11 +269,61 @@ inline void c02_entry_points(Env& e, mon::Rng& rng)
   for (int k = 1; k <= 4; k++)
     for (uint64_t off : { uint64_t(0), uint64_t(16), uint64_t(size - 1) }) { one(base + off + (static_cast<uintptr_t>(k) << 32), "inside-plus-k*4GiB"); one(base + off - (static_cast<uintptr_t>(k) << 32), "inside-minus-k*4GiB"); }
   for (int i = 0; i < mon::tier(20000, 1000000); i++) one(rng(), "random-64-bit");
-  mon::hit("entry-point-accepted-inside", n_acc);
-  mon::hit("entry-point-rejected-outside", n_rej);
+}
+// C02 run-time entry points: abort <=> address outside this sandbox's memory.  P = char* (data pointers) or a function-pointer
+// type; the function-pointer instantiation is made from a generated form, so a tree in which it does not compile only loses it.
+template<typename P>
+inline void c02_entry_points_t(Env& e, mon::Rng& rng, const char* kind)
+{
+  Wd::sbx other;
+  other.create_sandbox(&e.lib);
+  uintptr_t base = Wd::base(e.sb), obase = Wd::base(other);
+  size_t size = Wd::size(e.sb);
+  constexpr bool isfn = std::is_function_v<std::remove_pointer_t<P>>;
+  std::string n0 = std::string("tainted::assign_raw_pointer") + kind, n1 = std::string("UNSAFE_accept_pointer") + kind, n2 = std::string("tainted_volatile::assign_raw_pointer") + kind;
+  auto outside_nonnull = [&](uintptr_t v) { return v != 0 && !(v >= base && v - base < size); };
+  auto one = [&](uintptr_t a, const char* where) {
+    bool inside = a >= base && a - base < size;
+    P p = reinterpret_cast<P>(a);
+    mon::ctx("entry-points%s/%s | %p", kind, where, (void*)a);
+    tainted<P, S> t = nullptr;
+    bool ab1 = mon::aborts([&] { t.assign_raw_pointer(e.sb, p); });
+    tainted<P, S> t2 = nullptr;
+    bool ab2 = mon::aborts([&] { t2 = e.sb.UNSAFE_accept_pointer(p); });
+    uint64_t cell_off = isfn ? e.off<fnp>() : e.off<cpchar>();
+    Wd::wr<uint32_t>(e.sb, cell_off, 0x5a5a5a5a);
+    bool ab3 = mon::aborts([&] { Wd::tptr<P>(e.sb, cell_off)->assign_raw_pointer(e.sb, p); });
+    uint32_t cell = Wd::rd<uint32_t>(e.sb, cell_off);
+    mon::evals(3);
+    const std::string* names[3] = { &n0, &n1, &n2 };
+    bool abs[3] = { ab1, ab2, ab3 };
+    for (int k = 0; k < 3; k++) {
+      cur_desc = names[k]->c_str();
+      if (inside && abs[k]) violation("entry-point-rejected-address-inside-sandbox", mon::fmt("%s(%s, base%+lld)", names[k]->c_str(), where, (long long)(a - base)));
+      else if (!inside && !abs[k]) violation("entry-point-accepted-address-outside-sandbox", mon::fmt("%s accepted %p (%s), sandbox memory is %p..%p", names[k]->c_str(), (void*)a, where, (void*)base, (void*)(base + size - 1)));
+      else (inside ? g_ep_acc : g_ep_rej)++;
+    }
+    // a rejected call must not have stored the application address either (observable once aborts are exceptions)
+    if (!inside && ab1 && outside_nonnull(reinterpret_cast<uintptr_t>(t.UNSAFE_unverified()))) { cur_desc = n0.c_str(); violation("rejected-call-left-address-outside-sandbox-in-the-wrapper", mon::fmt("%s: tainted holds %p after the call aborted", where, (void*)t.UNSAFE_unverified())); }
+    if (!inside && ab2 && outside_nonnull(reinterpret_cast<uintptr_t>(t2.UNSAFE_unverified()))) { cur_desc = n1.c_str(); violation("rejected-call-left-address-outside-sandbox-in-the-wrapper", where); }
+    if constexpr (!isfn) {
+      if (inside && !ab1 && reinterpret_cast<uintptr_t>(t.UNSAFE_unverified()) != a) { cur_desc = n0.c_str(); violation("entry-point-stored-other-address", where); }
+      if (inside && !ab2 && reinterpret_cast<uintptr_t>(t2.UNSAFE_unverified()) != a) { cur_desc = n1.c_str(); violation("entry-point-stored-other-address", where); }
+      if (inside && !ab3 && cell != static_cast<uint32_t>(a - base)) { cur_desc = n2.c_str(); violation("entry-point-stored-other-representation", mon::fmt("%s: cell holds %u for base+%llu", where, cell, (unsigned long long)(a - base))); }
+    }
+  };
+  cur_id = 0; cur_tag = "r";
+  c02_entry_point_addresses(e, rng, obase, one);
+  if constexpr (!isfn) mon::distinct_counted((size + 8192) / (mon::thorough() ? 1 : 7));
+  other.destroy_sandbox();
+}
+inline void c02_entry_points(Env& e, mon::Rng& rng)
+{
+  c02_entry_points_t<char*>(e, rng, "");
+  mon::hit("entry-point-accepted-inside", g_ep_acc);
+  mon::hit("entry-point-rejected-outside", g_ep_rej);
   mon::require("entry-point-accepted-inside");
   mon::require("entry-point-rejected-outside");
-  other.destroy_sandbox();
 }
 
 inline int32_t g_echo_int(int32_t x) { guest_calls++; return x; }
@@ -343,6 +355,9 @@ inline int run_all(const char* prop, int argc, char** argv)
     mon::distinct(mon::mix(0xf0, f.id));
     if (threw) n_threw++;
     else if (!strcmp(prop, "C02")) after_c02(e);
+    if (!threw && getenv("VERIF_LIST_COMPLETED")) fprintf(stderr, "[completed] %d %s %s\n", f.id, f.tag, f.desc);
+    // tag "f": the statement says such a program cannot exist or must abort -- running to completion is the violation
+    if (!threw && f.tag[0] == 'f') violation("forbidden-program-ran-to-completion", "it compiled, ran and did not abort");
   }
   if (!strcmp(prop, "C02") && mon::slice() == 0) { mon::Rng rng(mon::seed() * 53 + 2); c02_entry_points(e, rng); }
   mon::hit("forms-executed", n_ran);
